@@ -24,6 +24,9 @@ STRUCTURAL = {"report-missing-or-unparsable", "schema", "results-vs-execution-or
               "changeset-path-missing", "changeset-path-not-relative"}
 
 
+TOOL_OF_ORIGIN = {"sonar": "Sonar", "semgrep": "Semgrep", "defectdojo": "DefectDojo", "codeql": "CodeQL"}
+
+
 def _nlines(data: bytes) -> int:
     return len(split_nl(data.decode("utf-8", "replace")))
 
@@ -98,6 +101,9 @@ def check_report(outcome, world_files, dry_run=False, sast_ids=None):
             dt = res.get("detectionTool")
             if not dt or not dt.get("name"):
                 problems.append(("sast-without-detection-tool", {"codemod": cid}))
+            elif TOOL_OF_ORIGIN.get(cid.split(":")[0]) not in (None, dt.get("name")):
+                # the tool named is the one the codemod id belongs to (`semgrep:...` -> Semgrep)
+                problems.append(("sast-wrong-detection-tool", {"codemod": cid, "tool": dt.get("name")}))
             for cs in res.get("changeset", []):
                 code_changes = [ch for ch in cs.get("changes", []) if not ch.get("packageActions")]
                 if code_changes and not any(ch.get("findings") for ch in code_changes):
